@@ -14,7 +14,7 @@ import (
 )
 
 func c04(c *core.Ctx) map[string]interface{} {
-	c.Explanation = "Static check of the structural preconditions of decode(encode(x)) = x for the aligned-PER codec (C04). Decided: (R0.nilglobal) as for C03; (R4.parser) both directions obtain every field's constraints from the one tag parser applied to the `aper` tag (no second parser, no hand-built constraint record), and ngap.Encoder/ngap.Decoder pass the same top-level constraint string; (R4.dispatch = R3.tag) open-type alternatives are selected by a referenceFieldValue that is unique within its type and equal to the IE id / procedure code, reference fields precede the open type, Present constants equal positions, CHOICE bounds are the same tag on both sides by construction; (R4.acyclic) the type graph reachable from NGAPPDU has no cycle (decoding recursion is bounded by the schema); (R3.clone) mirrored primitives agree where they are clones: constrained-whole-number guard chains, octets-of-range and bit-width loops of INTEGER, length-range guards, SEQUENCE OF size guards, CHOICE index range; (R4.len) the length determinant decoder accepts exactly the X.691 10.9 forms the encoder emits (bit provenance of both octets, fragment counts 1..4); (R4.align) parseAlignBits, evaluated for every bit offset 0..7, accepts only when all remaining bits of the octet were compared with zero and leaves the cursor on the next octet boundary (offset 0: consumes nothing); (R4.seqof) SEQUENCE OF: the lower bound is added to the decoded count exactly on the constrained branches where the encoder subtracted it. (R4.frag) in the fragment loops of parseOctetString/parseBitString the string collected so far is only ever extended, so a string sent in several fragments (16K units or more) comes back whole. NOT decided: value equality after a round trip for every value (arithmetic of the primitives), acceptance of encodings produced by other encoders beyond these structural facts. (components) the rule set of C03 is run as part of this check: decode(encode(x)) = x needs a correct encoder."
+	c.Explanation = "Static check of the structural preconditions of decode(encode(x)) = x for the aligned-PER codec (C04). Decided: (R0.nilglobal) as for C03; (R4.parser) both directions obtain every field's constraints from the one tag parser applied to the `aper` tag (no second parser, no hand-built constraint record), and ngap.Encoder/ngap.Decoder pass the same top-level constraint string; (R4.dispatch = R3.tag) open-type alternatives are selected by a referenceFieldValue that is unique within its type and equal to the IE id / procedure code, reference fields precede the open type, Present constants equal positions, CHOICE bounds are the same tag on both sides by construction; (R4.acyclic) the type graph reachable from NGAPPDU has no cycle (decoding recursion is bounded by the schema); (R3.clone) mirrored primitives agree where they are clones: constrained-whole-number guard chains, octets-of-range and bit-width loops of INTEGER, length-range guards, SEQUENCE OF size guards, CHOICE index range; (R4.len) the length determinant decoder accepts exactly the X.691 10.9 forms the encoder emits (bit provenance of both octets, fragment counts 1..4); (R4.align) parseAlignBits, evaluated for every bit offset 0..7, accepts only when all remaining bits of the octet were compared with zero and leaves the cursor on the next octet boundary (offset 0: consumes nothing); (R4.seqof) SEQUENCE OF: the lower bound is added to the decoded count exactly on the constrained branches where the encoder subtracted it. (R4.frag) in the fragment loops of parseOctetString/parseBitString the string collected so far is only ever extended, so a string sent in several fragments (16K units or more) comes back whole. (R4.bits) GetBitString and GetBitsValue select the bits the bit stream defines: for every bit offset 0..7 and every length of 1..33 resp. 1..64 bits, with symbolic source octets, the result is the source's bits offset..offset+length-1 in order (left-aligned resp. as a big-endian number) and nothing else; a source one octet short is refused without an out-of-range index; widths up to 2040 bits (a length octet of 255) do not panic (index and slice-bound checks of the evaluator on). (R4.len) the value parseLength returns is folded for every first and second octet a path admits. NOT decided: value equality after a round trip for every value (arithmetic of the primitives), acceptance of encodings produced by other encoders beyond these structural facts. (components) the rule set of C03 is run as part of this check: decode(encode(x)) = x needs a correct encoder."
 	c.Assumptions = []string{"reflect.StructTag.Get returns the tag text the schema model reads"}
 	r0nilglobal(c, ngapEntries(c)...)
 	s := buildSchema(c)
